@@ -165,6 +165,20 @@ fn deg(v: &[i64]) -> String {
     }
 }
 
+fn orient(v: &[i64]) -> String {
+    // rot mirrored which by   (which: 0 rotate(by), 1 flip_h, 2 flip_v, 3 flip_h twice, 4 flip_v twice, 5 flip_h then flip_v)
+    let o = Orientation { rotation: rot(v[0] as u32), mirrored: v[1] != 0 };
+    let r = match v[2] {
+        0 => o.rotate(rot(v[3] as u32)),
+        1 => o.flip_horizontal(),
+        2 => o.flip_vertical(),
+        3 => o.flip_horizontal().flip_horizontal(),
+        4 => o.flip_vertical().flip_vertical(),
+        _ => o.flip_horizontal().flip_vertical(),
+    };
+    format!("ok {} {}", r.rotation.degree() / 90, r.mirrored as u8)
+}
+
 /*DISPATCH*/
 
 fn main() {
@@ -178,6 +192,7 @@ fn main() {
             "saw" | "init" | "scroll" => dispatch(cmd, &v),
             "madctl" => madctl(&v),
             "deg" => deg(&v),
+            "orient" => orient(&v),
             _ => "unknown".into(),
         }));
         println!("{}", out.unwrap_or_else(|_| "panic".into()));
